@@ -173,11 +173,11 @@ StepSpend(e) ==
       c == IF "C14" \notin Focus THEN ""
            ELSE IF e.res = "error" THEN "C14:spend_raised_an_unexpected_error"
            ELSE IF e.res = "insufficient" /\ usedA # usedB THEN "C14:failed_spend_changed_the_record_of_used_outputs"
-           ELSE IF e.res = "insufficient" /\ affordable THEN "C14:affordable_spend_reported_insufficient"
+           ELSE IF e.res = "insufficient" /\ affordable /\ usedB = RefsOfRows(e.used_truth) THEN "C14:affordable_spend_reported_insufficient"
            ELSE IF e.res = "insufficient" THEN ""
            ELSE IF ~(refs \subseteq DOMAIN u) THEN "C14:spends_an_output_that_is_not_unspent_at_head"
            ELSE IF \E r \in refs : u[r].k \notin wk THEN "C14:spends_an_output_not_owned_by_the_wallet"
-           ELSE IF refs \cap usedB # {} THEN "C14:spends_an_output_used_by_an_earlier_spend"
+           ELSE IF refs \cap (usedB \cup RefsOfRows(e.used_truth)) # {} THEN "C14:spends_an_output_used_by_an_earlier_spend"
            ELSE IF Cardinality(refs) # Len(t.ins) THEN "C14:same_output_twice"
            ELSE IF Len(t.outs) = 0 \/ t.outs[1].v # e.amount \/ t.outs[1].k # e.recipient THEN "C14:recipient_not_paid_exactly_the_amount"
            ELSE IF change < 0 THEN "C14:inputs_do_not_cover_amount_plus_fee"
